@@ -251,3 +251,19 @@ Example C10_ex_betweenMinusPiAndPi_binary64 :
   (betweenMinusPiAndPi B64Ops idR idR 4 = 4 - M_2PI64 /\ betweenMinusPiAndPi B64Ops idR idR (-4) = M_2PI64 - 4) /\
   (betweenMinusPiAndPi B64Ops idR idR M_PI64 = M_PI64 /\ betweenMinusPiAndPi B64Ops idR idR (- M_PI64) = - M_PI64).
 Proof. exact (conj bpi_64_ex_4 bpi_64_ex_ends). Qed.
+
+(* ================= SYNTACTIC SOURCE TIE of the builders (translate/eigensym.py, translate/tr_C10_eigensym.py -> gen/SrcEigenC10.v) =================
+   eulerAngleToRotation2D, eulerAnglesToQuaternion, eulerAnglesToRotation3D and quaternionToEulerAngles, regenerated on every run
+   from the clang AST of their instantiation at double by the symbolic Eigen evaluator, equal the models the theorems above are
+   about.  (Eigen's AngleAxis -> Quaternion, quaternion product, toRotationMatrix and normalized are formulas of the evaluator;
+   the tie is on the composition written in EulerAngles.hpp: angle index / axis pairing, the order Z * Y * X, the conversions.) *)
+From Romea Require Import SrcTieC10Eigen.
+From Romea.gen Require Import SrcEigenC10.
+Theorem C10_source_tie_euler_builders :
+  (forall a, src_eulerAngleToRotation2D ROps a = eulerAngleToRotation2D ROps a) /\
+  (forall e : vec3 R, src_eulerAnglesToQuaternion ROps e = eulerAnglesToQuaternion ROps e) /\
+  (forall e : vec3 R, src_eulerAnglesToRotation3D ROps e = eulerAnglesToRotation3D ROps e) /\
+  (forall q : quat R, nleb ROps (nabs ROps (m20 (quat_to_mat ROps (qnormalized ROps q)))) (n_one ROps) = true ->
+     quaternionToEulerAngles ROps ROps idR idR q = Some (src_quaternionToEulerAngles ROps q)).
+Proof. exact source_tie_euler_builders. Qed.
+Print Assumptions C10_source_tie_euler_builders.
